@@ -8,9 +8,11 @@ package postprocessor
 import (
 	"bytes"
 	"os"
+	"os/exec"
 	"path/filepath"
 	"regexp"
 	"strconv"
+	"strings"
 	"testing"
 
 	"github.com/internetarchive/Zeno/internal/pkg/veriflib"
@@ -20,14 +22,18 @@ const (
 	c10KeyPDFPageTreeCycle = "C10-extractor.PDF-pdfcpu-stackoverflow-pagetree-cycle"
 	c10KeyPDFNestedDict    = "C10-extractor.PDF-pdfcpu-hang-nested-dict"
 	c10KeyM3U8Memory       = "C10-extractor.M3U8-m3u8-memory-blowup"
+	c10KeyPDFHugeLength    = "C10-extractor.PDF-pdfcpu-oom-huge-length"
+	c10KeyHTMLNestedScript = "C10-extractor.HTMLAssets-regexp-hang-nested-scripts"
+	c10KeyPDFPanic         = "C10-extractor.PDF-pdfcpu" // recoverable panics inside pdfcpu (keyed automatically)
+	c10KeyM3U8Panic        = "C10-extractor.M3U8-m3u8"  // recoverable panics inside grafov/m3u8 (keyed automatically)
 	// the parser retries every dictionary that failed to parse a second time ("relaxed"), at every nesting level: 2^depth
 	c10PDFDictDepthLimit = 14
 )
 
 var (
-	c10ObjRe  = regexp.MustCompile(`(\d+)[\s\x00]+\d+[\s\x00]+obj\b`)
-	c10KidsRe = regexp.MustCompile(`/Kids[\s\x00]*(\[[^\]]*\]?|\d+[\s\x00]+\d+[\s\x00]+R)`)
-	c10RefRe  = regexp.MustCompile(`(\d+)[\s\x00]+\d+[\s\x00]+R\b`)
+	c10ObjRe  = regexp.MustCompile(`([+-]?\d+)[\s\x00]+[+-]?\d+[\s\x00]*obj\b`)
+	c10KidsRe = regexp.MustCompile(`/Kids[\s\x00]*(\[[^\]]*\]?|[+-]?\d+[\s\x00]+[+-]?\d+[\s\x00]*R)`)
+	c10RefRe  = regexp.MustCompile(`([+-]?\d+)[\s\x00]+[+-]?\d+[\s\x00]*R\b`)
 )
 
 // c10PDFPageTreeCycle: does the /Kids graph of the (uncompressed) objects of a PDF contain a cycle? Independent,
@@ -128,15 +134,34 @@ func c10M3U8AttachCost(b []byte) int64 {
 	return cost
 }
 
+var c10HugeNumRe = regexp.MustCompile(`(?:^|[\s\[(/])[+]?0*[1-9]\d{9,}(?:[\s\]/>)]|$)`)
+
+// c10PDFHugeNumber: a numeric token of 10 or more significant digits (stream /Length, directly or through a
+// reference): pdfcpu allocates what the document declares.
+func c10PDFHugeNumber(b []byte) bool { return c10HugeNumRe.Match(b) }
+
+// c10HTMLNestedScripts: <script> elements nest only inside foreign content (<svg>, <math>); HTMLAssets then runs the
+// strict link regex over the outer HTML of every one of them (quadratic, ~0.4 MB/s).
+func c10HTMLNestedScripts(b []byte) bool {
+	l := bytes.ToLower(b)
+	return (bytes.Contains(l, []byte("<svg")) || bytes.Contains(l, []byte("<math"))) && bytes.Count(l, []byte("<script")) >= 150
+}
+
 // c10FatalClass names the OPEN finding an input belongs to when that class cannot be survived in-process (fatal
 // runtime error, or a hang that costs a core for ever): such inputs are kept out of the search before execution.
 func c10FatalClass(c c10Case) string {
-	if (c.Target == "m3u8" || c.Target == "chain") && veriflib.FindingOpen(c10KeyM3U8Memory) && c10M3U8AttachCost(c.Body) > 4<<20 {
-		return c10KeyM3U8Memory // > 4 Mi appended pointers (32 MiB): the class that grows to gigabytes
+	if (c.Target == "m3u8" || c.Target == "chain") && veriflib.FindingOpen(c10KeyM3U8Memory) && c10M3U8AttachCost(c.Body) > 256<<10 {
+		return c10KeyM3U8Memory // every appended rendition becomes a URL, then a child item (~600 bytes): 3.4 M of them are 2 GiB
 	}
-	cycle, nested := veriflib.FindingOpen(c10KeyPDFPageTreeCycle), veriflib.FindingOpen(c10KeyPDFNestedDict)
-	if !cycle && !nested || c.Target != "pdf" && c.Target != "chain" || !bytes.Contains(c.Body[:min(len(c.Body), 2048)], []byte("%PDF-")) {
+	if c.Target != "pdf" && c.Target != "m3u8" && veriflib.FindingOpen(c10KeyHTMLNestedScript) && c10HTMLNestedScripts(c.Body) {
+		return c10KeyHTMLNestedScript
+	}
+	cycle, nested, huge := veriflib.FindingOpen(c10KeyPDFPageTreeCycle), veriflib.FindingOpen(c10KeyPDFNestedDict), veriflib.FindingOpen(c10KeyPDFHugeLength)
+	if !cycle && !nested && !huge || c.Target != "pdf" && c.Target != "chain" || !bytes.Contains(c.Body[:min(len(c.Body), 2048)], []byte("%PDF-")) {
 		return ""
+	}
+	if huge && c10PDFHugeNumber(c.Body) {
+		return c10KeyPDFHugeLength
 	}
 	if nested && c10PDFDictDepth(c.Body) >= c10PDFDictDepthLimit {
 		return c10KeyPDFNestedDict
@@ -187,13 +212,76 @@ func TestVerifKF_C10_extractor_PDF_pdfcpu_hang_nested_dict(t *testing.T) {
 }
 
 // TestVerifKF_C10_extractor_M3U8_m3u8_memory_blowup: a 64 KiB master playlist (640 x {#EXT-X-MEDIA, #EXT-X-STREAM-INF, URI})
-// makes grafov/m3u8 append ~10^8 rendition pointers (cubic in the number of lines): > 4 GiB of heap for one response.
+// makes grafov/m3u8 append ~10^8 rendition pointers (cubic in the number of lines): > 2 GiB of resident memory for one response.
 func TestVerifKF_C10_extractor_M3U8_m3u8_memory_blowup(t *testing.T) {
 	defer veriflib.Flush()
 	defer c10JournalEnd("")
 	body := []byte("#EXTM3U\n" + c10Rep("#EXT-X-MEDIA:TYPE=AUDIO,GROUP-ID=\"a\",URI=\"a.m3u8\"\n#EXT-X-STREAM-INF:BANDWIDTH=1,AUDIO=\"a\"\nv.m3u8\n", 640))
-	if c10M3U8AttachCost(body) <= 4<<20 {
+	if c10M3U8AttachCost(body) <= 256<<10 {
 		t.Fatalf("harness: the pre-execution filter does not recognise the minimal input of %s", c10KeyM3U8Memory)
 	}
 	propC10(t, c10Case{Target: "m3u8", Body: body, Note: "known finding " + c10KeyM3U8Memory})
+}
+
+// TestVerifKF_C10_extractor_HTMLAssets_regexp_hang_nested_scripts: "<svg>" followed by 2000 "<script>" (16 KiB) keeps
+// HTMLAssets busy for more than a minute (8 KiB: 24 s, 32 KiB: 4.6 min, 64 KiB: ~20 min: quadratic). Confirmed with
+// a 2 s first deadline and three 20 s re-runs (same rule, smaller constants).
+func TestVerifKF_C10_extractor_HTMLAssets_regexp_hang_nested_scripts(t *testing.T) {
+	defer veriflib.Flush()
+	defer c10JournalEnd("")
+	body := []byte("<svg>" + strings.Repeat("<script>", 2000))
+	if !c10HTMLNestedScripts(body) {
+		t.Fatalf("harness: the pre-execution filter does not recognise the minimal input of %s", c10KeyHTMLNestedScript)
+	}
+	if os.Getenv("VERIF_C10_BUDGET_MS") == "" {
+		os.Setenv("VERIF_C10_BUDGET_MS", "2000")
+		defer os.Unsetenv("VERIF_C10_BUDGET_MS")
+	}
+	propC10(t, c10Case{Target: "html", Body: body, Note: "known finding " + c10KeyHTMLNestedScript})
+}
+
+// TestVerifKF_C10_extractor_M3U8_m3u8: "#EXT-X-KEY:" followed by any line without "#EXTM3U" (13 bytes) is a nil
+// dereference in grafov/m3u8 decodeLineOfMediaPlaylist; extractor.M3U8 has no recover, the worker goroutine dies.
+func TestVerifKF_C10_extractor_M3U8_m3u8(t *testing.T) {
+	defer veriflib.Flush()
+	defer c10JournalEnd("")
+	propC10(t, c10Case{Target: "m3u8", Body: c10KFFile(t, "m3u8/kf-ext-x-key-nil-deref.m3u8"), Note: "known finding " + c10KeyM3U8Panic})
+}
+
+// TestVerifKF_C10_extractor_PDF_pdfcpu: a PDF that makes pdfcpu panic (recoverable); extractor.PDF has no recover.
+func TestVerifKF_C10_extractor_PDF_pdfcpu(t *testing.T) {
+	defer veriflib.Flush()
+	defer c10JournalEnd("")
+	propC10(t, c10Case{Target: "pdf", Body: c10KFFile(t, "pdf/kf-pdfcpu-panic.pdf"), Note: "known finding " + c10KeyPDFPanic})
+}
+
+// c10Child runs one corpus file through a target in a child process (the same test binary, TestVerif_C10_File) and
+// returns its combined output: the way to observe a death that no recover can stop without dying with it.
+func c10Child(file, target string) (string, error) {
+	cmd := exec.Command(os.Args[0], "-test.run", "^TestVerif_C10_File$", "-test.timeout", "120s")
+	cmd.Env = append(os.Environ(), "VERIF_C10_FILE="+file, "VERIF_C10_TARGET="+target, "VERIF_STRICT=1", "VERIF_FAIL_DIR=", "VERIF_STATS_DIR=", "VERIF_REPLAY=")
+	out, err := cmd.CombinedOutput()
+	return string(out), err
+}
+
+// TestVerifKF_C10_extractor_PDF_pdfcpu_oom_huge_length: a 172-byte PDF whose stream declares /Length 99999999999 makes
+// pdfcpu.readStreamContent call make([]byte, 99999999999): the Go runtime ends the process at once ("fatal error:
+// runtime: out of memory", no recover). 9999999999 (10 GB) is reserved lazily and survives on a 62 GB host only.
+// Run in a child process; the message avoids the runtime's wording, which the driver reserves for machine trouble.
+func TestVerifKF_C10_extractor_PDF_pdfcpu_oom_huge_length(t *testing.T) {
+	defer veriflib.Flush()
+	rel := "pdf/kf-huge-length-oom.pdf"
+	body := c10KFFile(t, rel)
+	if !c10PDFHugeNumber(body) {
+		t.Fatalf("harness: the pre-execution filter does not recognise the minimal input of %s", c10KeyPDFHugeLength)
+	}
+	out, err := c10Child(filepath.Join(c10CorpusDir(), rel), "pdf")
+	if err == nil {
+		return // did not reproduce
+	}
+	if strings.Contains(out, "runtime: out of memory") && strings.Contains(out, "pdfcpu.readStreamContent") {
+		veriflib.Fail(t, "C10", "C10/pdf", c10Case{Target: "pdf", Body: body, Note: "known finding " + c10KeyPDFHugeLength}, nil,
+			"fatal memory exhaustion (key C10-oom-extractor_PDF_pdfcpu): the child process running the case was ended by the Go runtime inside makeslice <- pdfcpu.readStreamContent <- ... <- extractor.PDF (allocation of the declared stream /Length)")
+	}
+	t.Fatalf("harness: child process failed differently: %v\n%.2000s", err, strings.ReplaceAll(out, "out of memory", "o-o-m"))
 }
